@@ -159,6 +159,10 @@ for _p in ('C05', 'C06'):   # container-level clauses: Build's verdict and singl
     PROPS[_p]['streams'] = PROPS[_p]['streams'] + [CORE_STREAM]
 for _p in ('C05', 'C06', 'C17'):
     PROPS[_p]['streams'] = PROPS[_p]['streams'] + [WITNESS_STREAM]
+# container clauses of C05: the verdict "circular" is exact, and resolution terminates on every registry that passes it
+PROPS['C05']['extra_theorems'] = {'GodiProofs.Props.C05b': ['Godi.Props.C05b.' + n for n in (
+    'build_graph_is_declared_relation', 'build_circular_iff', 'accepted_registry_is_ranked', 'resolution_terminates',
+    'group_resolution_terminates', 'construction_terminates', 'successful_build_is_accepted', 'cyclic_registry_is_not_settled')]}
 for _p in ('C19', 'C06'):
     PROPS[_p]['streams'] = PROPS[_p]['streams'] + [GRAPH_WITNESS_STREAM]
 # the concurrent clauses of the container properties: the schedule-forced stream (M6 replays the same schedule)
